@@ -46,6 +46,9 @@ func opsDomain(thorough bool) []opVal {
 		{"a_f1", "array", nil, ugo.Array{ugo.Float(1)}}, {"a_u1", "array", nil, ugo.Array{ugo.Uint(1)}},
 		{"m_empty", "map", nil, ugo.Map{}}, {"m_i1", "map", nil, ugo.Map{"k": ugo.Int(1)}}, {"m_f1", "map", nil, ugo.Map{"k": ugo.Float(1)}},
 		{"err", "error", nil, &ugo.Error{Name: "E", Message: "m"}},
+		// containers holding undefined, maps with other keys of the same size
+		{"m_ku", "map", nil, ugo.Map{"k": ugo.Undefined}}, {"m_j1", "map", nil, ugo.Map{"j": ugo.Int(1)}}, {"m_ju", "map", nil, ugo.Map{"j": ugo.Undefined}},
+		{"a_u", "array", nil, ugo.Array{ugo.Undefined}}, {"a_i1u", "array", nil, ugo.Array{ugo.Int(1), ugo.Undefined}},
 	}
 	if thorough {
 		d = append(d,
@@ -60,9 +63,9 @@ func opsDomain(thorough bool) []opVal {
 			opVal{"b_b", "bytes", nil, ugo.Bytes("b")}, opVal{"b_ab", "bytes", nil, ugo.Bytes("ab")},
 			opVal{"a_nest", "array", nil, ugo.Array{ugo.Array{ugo.Int(1)}}}, opVal{"a_nestf", "array", nil, ugo.Array{ugo.Array{ugo.Float(1)}}},
 			opVal{"a_i1i2", "array", nil, ugo.Array{ugo.Int(1), ugo.Int(2)}}, opVal{"a_true", "array", nil, ugo.Array{ugo.True}},
-			opVal{"a_undef", "array", nil, ugo.Array{ugo.Undefined}}, opVal{"a_c1", "array", nil, ugo.Array{ugo.Char(1)}},
+			opVal{"a_undef", "array", nil, ugo.Array{ugo.Undefined, ugo.Undefined}}, opVal{"a_c1", "array", nil, ugo.Array{ugo.Char(1)}},
 			opVal{"m_u1", "map", nil, ugo.Map{"k": ugo.Uint(1)}}, opVal{"m_nest", "map", nil, ugo.Map{"k": ugo.Array{ugo.Int(1)}}},
-			opVal{"m_nestf", "map", nil, ugo.Map{"k": ugo.Array{ugo.Float(1)}}}, opVal{"m_k2", "map", nil, ugo.Map{"j": ugo.Int(1)}},
+			opVal{"m_nestf", "map", nil, ugo.Map{"k": ugo.Array{ugo.Float(1)}}}, opVal{"m_k2", "map", nil, ugo.Map{"j": ugo.Int(1), "k": ugo.Undefined}},
 			opVal{"m_true", "map", nil, ugo.Map{"k": ugo.True}},
 			opVal{"err2", "error", nil, &ugo.Error{Name: "E", Message: "m"}},
 			opVal{"fn", "function", nil, &ugo.Function{Name: "f"}},
@@ -87,9 +90,9 @@ var opsLits = map[string]string{
 	"s_empty": `""`, "s_a": `"a"`, "s_b": `"b"`, "s_ab": `"ab"`, "s_1": `"1"`, "s_bad": `"\xff"`,
 	"b_empty": "bytes()", "b_a": `bytes("a")`, "b_b": `bytes("b")`, "b_ab": `bytes("ab")`,
 	"a_empty": "[]", "a_i1": "[1]", "a_f1": "[1.0]", "a_u1": "[1u]", "a_nest": "[[1]]", "a_nestf": "[[1.0]]",
-	"a_i1i2": "[1, 2]", "a_true": "[true]", "a_undef": "[undefined]", "a_c1": "['\\x01']",
+	"a_i1i2": "[1, 2]", "a_true": "[true]", "a_undef": "[undefined, undefined]", "a_c1": "['\\x01']",
 	"m_empty": "{}", "m_i1": "{k: 1}", "m_f1": "{k: 1.0}", "m_u1": "{k: 1u}", "m_nest": "{k: [1]}", "m_nestf": "{k: [1.0]}",
-	"m_k2": "{j: 1}", "m_true": "{k: true}",
+	"m_k2": "{j: 1, k: undefined}", "m_ku": "{k: undefined}", "m_j1": "{j: 1}", "m_ju": "{j: undefined}", "a_u": "[undefined]", "a_i1u": "[1, undefined]", "m_true": "{k: true}",
 }
 
 // projection of a result, the same string the table carries as "script"
